@@ -27,11 +27,18 @@ import (
 type vc09RW struct {
 	local, remote net.Addr
 	written       []*dns.Msg
+	writeErr      error
+	attempts      int
 }
 
 func (w *vc09RW) LocalAddr() net.Addr  { return w.local }
 func (w *vc09RW) RemoteAddr() net.Addr { return w.remote }
 func (w *vc09RW) WriteMsg(_ context.Context, _, resp *dns.Msg) error {
+	w.attempts++
+	if w.writeErr != nil {
+		return w.writeErr
+	}
+
 	w.written = append(w.written, resp)
 
 	return nil
@@ -104,7 +111,7 @@ var vc09AllProtos = []dnsserver.Protocol{dnsserver.ProtoDNS, dnsserver.ProtoDoT,
 func TestVerifC09MiddlewareScripted(t *testing.T) {
 	st := vstat.New("C09", "ratelimit.middleware.scripted",
 		"rapid (protocol list x server protocol x client address form/port x scripted limiter verdict x scripted next handler) through ratelimit.Middleware.Wrap; oracle = decision table of the statement (drop => next not called and nothing written; allowlisted => passed through uncounted; pass => response counted once and written once); non-trivial = the limiter was consulted, distinct by the whole tuple",
-		"drop-silent", "allowlisted-pass-through", "pass-counted", "pass-no-response", "proto-not-limited", "port0-spoof", "limiter-error", "next-error", "v4-mapped-remote")
+		"drop-silent", "allowlisted-pass-through", "pass-counted", "pass-no-response", "proto-not-limited", "port0-spoof", "limiter-error", "next-error", "write-error", "request-larger-than-response", "v4-mapped-remote")
 	st.Finish(t)
 
 	rapid.Check(t, func(t *rapid.T) {
@@ -148,12 +155,18 @@ func TestVerifC09MiddlewareScripted(t *testing.T) {
 		}
 
 		rw := &vc09RW{local: &net.UDPAddr{IP: net.IP{127, 0, 0, 1}, Port: 53}, remote: vc09Remote(ip, port, form)}
+		if rapid.IntRange(0, 7).Draw(t, "writeErr") == 0 {
+			rw.writeErr = errors.New("scripted write error")
+		}
+
 		ctx := dnsserver.ContextWithServerInfo(context.Background(), &dnsserver.ServerInfo{Name: "c09", Addr: "127.0.0.1:53", Proto: proto})
-		req := vc09Req(vc09DrawQType(t))
+		// The request may be larger than the response (EDNS padding): it is the
+		// response that is counted.
+		req := vc09ReqPadded(vc09DrawQType(t), rapid.SampledFrom([]int{0, 0, 300, 1500}).Draw(t, "reqPad"))
 		gotErr := mw.Wrap(next).ServeDNS(ctx, rw, req)
 
-		desc := fmt.Sprintf("protocols=%v server=%v remote=%s(%T, %d-byte ip) limiter={drop:%t allow:%t err:%v} next={respSize:%d err:%v}: got err=%v next.calls=%d written=%d asked=%v counted=%v",
-			protos, proto, rw.remote, rw.remote, len(vc09IPBytes(rw.remote)), lim.drop, lim.allow, lim.err, next.respSize, next.err, gotErr, next.calls, len(rw.written), lim.asked, lim.counted)
+		desc := fmt.Sprintf("protocols=%v server=%v remote=%s(%T, %d-byte ip) limiter={drop:%t allow:%t err:%v} next={respSize:%d err:%v} reqLen=%d writeErr=%v: got err=%v next.calls=%d written=%d asked=%v counted=%v",
+			protos, proto, rw.remote, rw.remote, len(vc09IPBytes(rw.remote)), lim.drop, lim.allow, lim.err, next.respSize, next.err, req.Len(), rw.writeErr, gotErr, next.calls, len(rw.written), lim.asked, lim.counted)
 		fail := func(f string, a ...any) { t.Fatalf("%s\n%s", fmt.Sprintf(f, a...), desc) }
 
 		var cls []string
@@ -216,12 +229,20 @@ func TestVerifC09MiddlewareScripted(t *testing.T) {
 					if len(lim.counted) != 1 || lim.counted[0] != ip || lim.countedMsgs[0].Len() != next.lastResp.Len() {
 						fail("the response must be counted exactly once for %s with its own size", ip)
 					}
+
+					if req.Len() > next.lastResp.Len() {
+						cls = append(cls, "request-larger-than-response")
+					}
 				}
 			}
 		}
 
 		if next.err != nil && next.calls > 0 {
 			cls = append(cls, "next-error")
+		}
+
+		if rw.writeErr != nil && rw.attempts > 0 {
+			cls = append(cls, "write-error")
 		}
 
 		st.Case(nt, cls...)
@@ -254,13 +275,21 @@ func vc09ExpectNext(fail func(string, ...any), next *vc09Next, rw *vc09RW, gotEr
 		return
 	}
 
-	if gotErr != nil {
-		fail("unexpected error")
-	}
-
 	want := 0
 	if next.respSize >= 0 {
 		want = 1
+	}
+
+	if want == 1 && rw.writeErr != nil {
+		if !errors.Is(gotErr, rw.writeErr) || rw.attempts != 1 {
+			fail("the client writer's error must be returned after exactly one attempt")
+		}
+
+		return
+	}
+
+	if gotErr != nil {
+		fail("unexpected error")
 	}
 
 	if len(rw.written) != want || (want == 1 && rw.written[0] != next.lastResp) {
@@ -274,7 +303,7 @@ func vc09ExpectNext(fail func(string, ...any), next *vc09Next, rw *vc09RW, gotEr
 func TestVerifC09MiddlewareBackoff(t *testing.T) {
 	st := vstat.New("C09", "ratelimit.middleware.backoff",
 		"rapid histories of queries (client address, qtype, protocol, response size of the wrapped handler) through ratelimit.Middleware with a real Backoff (1h intervals); oracle = per-subnet counter model on what the client observes; non-trivial = a query got no response and a later one did, distinct by (config, history)",
-		"silence-then-later-response", "dropped", "large-response-counted", "allowlisted-pass", "any-refused", "proto-not-limited")
+		"silence-then-later-response", "dropped", "large-response-counted", "request-weighs-more-than-response", "allowlisted-pass", "any-refused", "proto-not-limited")
 	st.Finish(t)
 
 	rapid.Check(t, func(t *rapid.T) {
@@ -300,9 +329,9 @@ func TestVerifC09MiddlewareBackoff(t *testing.T) {
 			next := &vc09Next{respSize: vc09DrawRespSize(t, c.Est)}
 			rw := &vc09RW{local: &net.UDPAddr{IP: net.IP{127, 0, 0, 1}, Port: 53}, remote: vc09Remote(ip, 5353, rapid.IntRange(0, 3).Draw(t, "form"))}
 			ctx := dnsserver.ContextWithServerInfo(context.Background(), &dnsserver.ServerInfo{Name: "c09", Addr: "127.0.0.1:53", Proto: proto})
-			req := vc09Req(qt)
+			req := vc09ReqPadded(qt, rapid.SampledFrom([]int{0, 0, 0, int(c.Est), 3 * int(c.Est)}).Draw(t, "reqPad"))
 			err := mw.Wrap(next).ServeDNS(ctx, rw, req)
-			lines = append(lines, fmt.Sprintf("%2d %v query %s qtype=%d handler-respsize=%d -> next.calls=%d responses=%d err=%v", i, proto, ip, qt, next.respSize, next.calls, len(rw.written), err))
+			lines = append(lines, fmt.Sprintf("%2d %v query %s qtype=%d reqlen=%d handler-respsize=%d -> next.calls=%d responses=%d err=%v", i, proto, ip, qt, req.Len(), next.respSize, next.calls, len(rw.written), err))
 			if err != nil {
 				t.Fatalf("unexpected error\n%s", hist())
 			}
@@ -319,6 +348,10 @@ func TestVerifC09MiddlewareBackoff(t *testing.T) {
 
 					if extra > 0 {
 						classes["large-response-counted"] = true
+					}
+
+					if uint64(req.Len())/c.Est > extra {
+						classes["request-weighs-more-than-response"] = true
 					}
 				}
 
